@@ -455,6 +455,16 @@ func (rl *respDeserializer) getNextArray(count int) (value respArray, valid bool
 	return a, true
 }
 
+// aggregate values are not comparable, so they cannot be the key of a map
+// or the member of a set
+func respKeyUsable(k respValue) bool {
+	switch k.data.(type) {
+	case respArray, respMap, respSet, respAttributeMap, respPush:
+		return false
+	}
+	return true
+}
+
 func (rl *respDeserializer) getNextMap(pairs int) (value respMap, valid bool) {
 	m := newRespMapSized(rl.sizeHint(pairs))
 
@@ -464,6 +474,9 @@ func (rl *respDeserializer) getNextMap(pairs int) (value respMap, valid bool) {
 			return
 		}
 		k = respNormalizeKey(k)
+		if valid = respKeyUsable(k); !valid {
+			return
+		}
 		if v, valid = rl.getNextValue(); !valid {
 			return
 		}
@@ -483,6 +496,9 @@ func (rl *respDeserializer) getNextAttributeMap(pairs int) (value respAttributeM
 			return
 		}
 		k = respNormalizeKey(k)
+		if valid = respKeyUsable(k); !valid {
+			return
+		}
 		if v, valid = rl.getNextValue(); !valid {
 			return
 		}
@@ -502,6 +518,9 @@ func (rl *respDeserializer) getNextSet(count int) (value respSet, valid bool) {
 			return
 		}
 		v = respNormalizeKey(v)
+		if valid = respKeyUsable(v); !valid {
+			return
+		}
 		s[v] = struct{}{}
 	}
 
@@ -595,6 +614,9 @@ func (rl *respDeserializer) getNextDynamicMap() (value respMap, valid bool) {
 			return m, true
 		}
 		k = respNormalizeKey(k)
+		if valid = respKeyUsable(k); !valid {
+			return
+		}
 		if v, valid = rl.getNextValue(); !valid {
 			return
 		}
@@ -616,6 +638,9 @@ func (rl *respDeserializer) getNextDynamicAttributeMap() (value respAttributeMap
 		}
 
 		k = respNormalizeKey(k)
+		if valid = respKeyUsable(k); !valid {
+			return
+		}
 		if v, valid = rl.getNextValue(); !valid {
 			return
 		}
@@ -636,6 +661,9 @@ func (rl *respDeserializer) getNextDynamicSet() (value respSet, valid bool) {
 			return s, true
 		}
 		v = respNormalizeKey(v)
+		if valid = respKeyUsable(v); !valid {
+			return
+		}
 		s[v] = struct{}{}
 	}
 }
